@@ -458,6 +458,11 @@ Proof.
   - cbn [fst]. auto with pool.
   - apply good_do_tick.
   - apply good_do_scan.
+  - destruct (negb (scanner s0)); cbn [fst]; [apply Good_refl|].
+    apply Good_same. reflexivity.
+  - destruct (scan_todo s0) as [|j r]; cbn [fst]; [apply Good_refl|].
+    apply (Good_trans s0 (scan_job lingers s0 j)); [apply good_scan_job|apply Good_same; reflexivity].
+  - cbn [fst]. apply Good_same. reflexivity.
   - cbn [fst]. auto with pool.
   - cbn [fst]. apply Good_set_job. intros y _ Hi. split; [apply j_uncache_mono|apply j_uncache_inv; exact Hi].
   - unfold do_terminate_job. destruct (in_pool s0 p); cbn [fst]; [|apply Good_refl].
